@@ -58,6 +58,10 @@ InRange == pc \in {"evaluated", "done"} =>
    /\ \A j \in 1..12 : IsDefined(st.acc[j]) => InUnit(st.acc[j])
    /\ InUnit(st.under) /\ InUnit(st.over) /\ InUnit(st.seg)
 DurationConserved == pc \in {"evaluated", "done"} => SumSeq(st.dur) = P
+(* C02: a copy of the reference scores 1 on every rule whose vocabulary contains its labels *)
+PerfectEstimate == pc = "evaluated" /\ est = ref /\ (\A i \in 1..Len(ref.labs) : ref.labs[i] \in 1..3) =>
+   /\ \A j \in 1..12 : st.acc[j] = <<1, 1>>
+   /\ st.under = <<1, 1>> /\ st.over = <<1, 1>> /\ st.seg = <<1, 1>>
 Export == pc \in {"evaluated", "done"} =>
    PrintT("ROW" \o ToJson([pc |-> pc, ref |-> ref, est |-> est, cut |-> cut,
                             vocab |-> [i \in 1..VocabN |-> i], st |-> st]))
